@@ -1,6 +1,7 @@
 (** C15 — property theorems only: statement, [exact] of a lemma proved in Proofs/C15_Bv.v, [Print Assumptions].
-    Model: Model/C15_Bv.v (mirrors DenseBreedingValueMatrix + subclasses, the inherited in-place taxa operations and
-    concat_taxa, and DenseScaledMatrix).  Numbers are exact rationals, a missing value is [None]; [coleq]/[oeq] is
+    Model: Model/C15_Bv.v (mirrors DenseBreedingValueMatrix + subclasses incl. its in-place taxa operations and
+    concat_taxa, and DenseScaledMatrix; [old_step] / [old_c_mean] are the FORMER code of the in-place operations, concat_taxa
+    and tmean, kept only for the regression witnesses [C15_old_..._refuted]).  Numbers are exact rationals, a missing value is [None]; [coleq]/[oeq] is
     entrywise equality of possibly-missing rationals, [raw_equiv] that of raw matrices with their labels.
     The hypotheses [loc_ok]/[sc_ok]/[params_ok]/[run_ok] are exactly the booleans the correspondence shards evaluate
     on every step of every generated history with the location/scale the implementation produced. *)
@@ -64,19 +65,23 @@ Theorem C15_stat_commutes_variance : forall (raw : list oq) (l s : Q), ~ s == 0 
 Proof. exact tvar_commutes. Qed.
 Print Assumptions C15_stat_commutes_variance.
 
-(** tmean(unscale=True) returns the location; for a trait without missing values and the exact location it is the raw mean *)
-Theorem C15_tmean_is_raw_mean : forall (raw : list oq) (l : Q) (s : oq) (v : list Q),
-  allsome raw = Some v -> v <> [] -> l == mean_q v ->
-  c_mean true (col_from_numpy raw (Some l) s) = Some (Some l)
-  /\ ooeq (c_mean true (col_from_numpy raw (Some l) s)) (Some (np_mean raw)).
-Proof. intros raw l s v Ha Hv Hl. split; [reflexivity|]. eapply tmean_commutes; eassumption. Qed.
-Print Assumptions C15_tmean_is_raw_mean.
+(** tmean(unscale=True) is the (numpy) mean of the raw column for every location and every non-zero scale: NaN as soon as a value
+    is missing (or the column is empty), like every other summary *)
+Theorem C15_stat_commutes_mean : forall (raw : list oq) (l s : Q), ~ s == 0 ->
+  ooeq (c_mean true (col_from_numpy raw (Some l) (Some s))) (Some (np_mean raw)).
+Proof. exact tmean_commutes. Qed.
+Print Assumptions C15_stat_commutes_mean.
+Theorem C15_tmean_missing_is_nan : forall (raw : list oq) (l s : oq), allsome raw = None ->
+  c_mean true (col_from_numpy raw l s) = Some None.
+Proof. exact tmean_missing_nan. Qed.
+Print Assumptions C15_tmean_missing_is_nan.
 
-(** ... but it is the only NaN-aware summary: with a missing value it is finite while the maximum and the numpy mean are NaN *)
-Theorem C15_tmean_nan_refuted : exists raw l s, loc_ok raw l = true /\ sc_ok raw s = true /\
-  c_max true (col_from_numpy raw l s) = Some None /\ np_mean raw = None /\ c_mean true (col_from_numpy raw l s) = Some (Some 2).
-Proof. exact tmean_nan_refuted. Qed.
-Print Assumptions C15_tmean_nan_refuted.
+(** regression witness: the FORMER tmean (return the location) was the only NaN-aware summary — with a missing value it was
+    finite while the maximum and the numpy mean are NaN (repaired finding C15-tmean-ignores-nan) *)
+Theorem C15_old_tmean_nan_refuted : exists raw l s, loc_ok raw l = true /\ sc_ok raw s = true /\
+  c_max true (col_from_numpy raw l s) = Some None /\ np_mean raw = None /\ old_c_mean true (col_from_numpy raw l s) = Some (Some 2).
+Proof. exact old_tmean_nan_refuted. Qed.
+Print Assumptions C15_old_tmean_nan_refuted.
 
 (** the stored column is centred and has unit variance (over the observed entries) when the location is the exact mean and
     the scale a square root of the exact variance *)
@@ -101,68 +106,73 @@ Theorem C15_constant_float_mean_refuted : exists x : PrimFloat.float,
 Proof. exists 0x1.999999999999ap-4%float. vm_compute. reflexivity. Qed.
 Print Assumptions C15_constant_float_mean_refuted.
 
-(** every history of select_taxa / delete_taxa / insert_taxa / adjoin_taxa (operands as arrays or as matrices, failing
-    operations leaving the matrix unchanged): the matrix reached stands for exactly the raw rows and labels obtained by
-    applying the list operations to the initial raw rows and labels *)
+(** every history of select_taxa / delete_taxa / insert_taxa / adjoin_taxa / remove_taxa / append_taxa / incorp_taxa / concat_taxa
+    (operands as arrays or as matrices with their own location and scale, failing operations leaving the matrix unchanged):
+    the matrix reached stands for exactly the raw rows and labels obtained by applying the list operations to the initial raw
+    rows and labels *)
 Theorem C15_ops_preserve_raw : forall (r0 : rawst) (p0 : list prm) (b0 : bv) (ops : list (op * list prm)),
-  from_numpy r0 p0 = Some b0 -> params_ok (r_cols r0) p0 = true ->
-  forallb (fun x => op_copy (fst x)) ops = true -> run_ok b0 ops = true ->
+  from_numpy r0 p0 = Some b0 -> params_ok (r_cols r0) p0 = true -> run_ok b0 ops = true ->
   raw_equiv (run_spec r0 (map fst ops)) (unscale (run b0 ops)).
 Proof. exact history_preserves_raw. Qed.
 Print Assumptions C15_ops_preserve_raw.
 
-(** one step: source and raw-level specification fail together or succeed together *)
-Theorem C15_step_sound : forall b o p r, op_copy o = true -> raw_equiv r (unscale b) -> step_ok b o p = true ->
-  orel (fun r' b' => raw_equiv r' (unscale b')) (raw_step opd_raw r o) (step b o p).
+(** one step of any of the eight operations: source and raw-level specification fail together or succeed together *)
+Theorem C15_step_sound : forall b o p r, raw_equiv r (unscale b) -> step_ok b o p = true ->
+  orel (fun r' b' => raw_equiv r' (unscale b')) (raw_step opd_raw p_cols r o) (step b o p).
 Proof. exact step_sound. Qed.
 Print Assumptions C15_step_sound.
 
-(** the in-place remove_taxa keeps the raw values and labels of the retained taxa and leaves location/scale untouched ... *)
-Theorem C15_remove_preserves_retained : forall (b b' : bv) (ob : idx) (p : list prm), step b (ORemove ob) p = Some b' ->
+(** nothing is stale after a step: the location / scale of the result are the parameters computed for (and, under [step_ok],
+    accepted for) the raw values it stands for — also after the in-place operations and concat_taxa *)
+Theorem C15_step_params_fresh : forall b o p b' r, step b o p = Some b' ->
+  raw_step opd_unscaled part_unscaled (unscale b) o = Some r ->
+  map (fun c => (cloc c, csc c)) (bcols b') = firstn (length (r_cols r)) p /\ length (r_cols r) = length p.
+Proof. exact step_params_fresh. Qed.
+Print Assumptions C15_step_params_fresh.
+
+(** regression witnesses about the FORMER code ([old_step]: the routines inherited from DenseTaxaMatrix, which edit / glue the
+    stored standardised values) — repaired findings C15-inplace-not-restandardised and C15-concat-raw-lost:
+    remove_taxa kept the raw values of the retained taxa but left location/scale stale ... *)
+Theorem C15_old_remove_preserves_retained : forall (b b' : bv) (ob : idx) (p : list prm), old_step b (ORemove ob) p = Some b' ->
   Forall2 (fun c c' => delete_any (col_unscale c) ob = Some (col_unscale c') /\ cloc c' = cloc c /\ csc c' = csc c) (bcols b) (bcols b')
   /\ olabels (fun l => delete_any l ob) (btaxa b) = Some (btaxa b') /\ olabels (fun l => delete_any l ob) (bgrp b) = Some (bgrp b').
-Proof. exact remove_preserves_raw. Qed.
-Print Assumptions C15_remove_preserves_retained.
-
-(** ... so that the location (= tmean(unscale=True)) is stale afterwards *)
-Theorem C15_remove_location_stale_refuted : exists r p b b',
-  from_numpy r p = Some b /\ params_ok (r_cols r) p = true /\ step b (ORemove (IInt 0)) [] = Some b' /\
+Proof. exact old_remove_preserves_raw. Qed.
+Print Assumptions C15_old_remove_preserves_retained.
+Theorem C15_old_remove_location_stale_refuted : exists r p b b',
+  from_numpy r p = Some b /\ params_ok (r_cols r) p = true /\ old_step b (ORemove (IInt 0)) [] = Some b' /\
   params_ok (r_cols (unscale b')) (map (fun c => (cloc c, csc c)) (bcols b')) = false.
-Proof. exact remove_stale_refuted. Qed.
-Print Assumptions C15_remove_location_stale_refuted.
-
-(** appending / incorporating / concatenating does NOT preserve the raw values (inherited DenseTaxaMatrix code works on the
-    stored standardised values): witnesses *)
-Theorem C15_append_preserves_raw_refuted : exists r p b v b' r',
-  from_numpy r p = Some b /\ params_ok (r_cols r) p = true /\ step b (OAppend v) [] = Some b' /\
-  raw_step opd_raw (unscale b) (OAppend v) = Some r' /\ ~ raw_equiv r' (unscale b').
-Proof. exact append_refuted. Qed.
-Print Assumptions C15_append_preserves_raw_refuted.
-Theorem C15_incorp_preserves_raw_refuted : exists r p b v b' r',
-  from_numpy r p = Some b /\ params_ok (r_cols r) p = true /\ step b (OIncorp (IInt 0) v) [] = Some b' /\
-  raw_step opd_raw (unscale b) (OIncorp (IInt 0) v) = Some r' /\ ~ raw_equiv r' (unscale b').
-Proof. exact incorp_refuted. Qed.
-Print Assumptions C15_incorp_preserves_raw_refuted.
-Theorem C15_concat_preserves_raw_refuted : exists r p b q b' r',
+Proof. exact old_remove_stale_refuted. Qed.
+Print Assumptions C15_old_remove_location_stale_refuted.
+(** ... appending / incorporating / concatenating did NOT preserve the raw values ... *)
+Theorem C15_old_append_preserves_raw_refuted : exists r p b v b' r',
+  from_numpy r p = Some b /\ params_ok (r_cols r) p = true /\ old_step b (OAppend v) [] = Some b' /\
+  raw_step opd_raw p_cols (unscale b) (OAppend v) = Some r' /\ ~ raw_equiv r' (unscale b').
+Proof. exact old_append_refuted. Qed.
+Print Assumptions C15_old_append_preserves_raw_refuted.
+Theorem C15_old_incorp_preserves_raw_refuted : exists r p b v b' r',
+  from_numpy r p = Some b /\ params_ok (r_cols r) p = true /\ old_step b (OIncorp (IInt 0) v) [] = Some b' /\
+  raw_step opd_raw p_cols (unscale b) (OIncorp (IInt 0) v) = Some r' /\ ~ raw_equiv r' (unscale b').
+Proof. exact old_incorp_refuted. Qed.
+Print Assumptions C15_old_incorp_preserves_raw_refuted.
+Theorem C15_old_concat_preserves_raw_refuted : exists r p b q b' r',
   from_numpy r p = Some b /\ params_ok (r_cols r) p = true /\ params_ok (p_cols q) (p_prm q) = true /\
-  step b (OConcat true [] [q]) [] = Some b' /\
-  raw_step opd_raw (unscale b) (OConcat true [] [q]) = Some r' /\ ~ raw_equiv r' (unscale b').
-Proof. exact concat_refuted. Qed.
-Print Assumptions C15_concat_preserves_raw_refuted.
-Theorem C15_concat_subclass_raises : forall b before after p, step b (OConcat false before after) p = None.
-Proof. exact concat_subclass_fails. Qed.
-Print Assumptions C15_concat_subclass_raises.
-
-(** guarded versions: appending the stored values of a matrix with the same location and non-zero scale is sound, and a
-    column kept with location 0 / scale 1 (what concat_taxa produces, and what from_numpy stores under these parameters) is its own raw column *)
-Theorem C15_append_same_params_partial : forall (c : tcol) (w : list oq) (l s : Q), cloc c = Some l -> csc c = Some s -> ~ s == 0 ->
-  coleq (col_unscale (mkcol (cdat c ++ cdat (col_from_numpy w (Some l) (Some s))) (cloc c) (csc c))) (col_unscale c ++ w).
-Proof. exact append_same_params_col. Qed.
-Print Assumptions C15_append_same_params_partial.
-Theorem C15_concat_zero_one_partial : forall (w : list oq),
-  coleq (col_unscale (zero_one w)) w /\ coleq (cdat (col_from_numpy w (Some 0) (Some 1))) w.
-Proof. intros w. split; [apply zero_one_unscale | apply from_numpy_zero_one]. Qed.
-Print Assumptions C15_concat_zero_one_partial.
+  old_step b (OConcat true [] [q]) [] = Some b' /\
+  raw_step opd_raw p_cols (unscale b) (OConcat true [] [q]) = Some r' /\ ~ raw_equiv r' (unscale b').
+Proof. exact old_concat_refuted. Qed.
+Print Assumptions C15_old_concat_preserves_raw_refuted.
+(** ... and the subclasses could not concatenate at all *)
+Theorem C15_old_concat_subclass_raises : forall b before after p, old_step b (OConcat false before after) p = None.
+Proof. exact old_concat_subclass_fails. Qed.
+Print Assumptions C15_old_concat_subclass_raises.
+(** the repaired code on the same witnesses (append of [10] to [0;2;2;0], concat with [10;30], tmean of [1;NaN;3]) *)
+Theorem C15_repaired_on_witnesses :
+  (exists b b' r', from_numpy wit_raw wit_prm = Some b /\ step b (OAppend wit_nd) [(Some (14 # 5), Some 4)] = Some b' /\
+     raw_step opd_raw p_cols (unscale b) (OAppend wit_nd) = Some r' /\ raw_equiv r' (unscale b'))
+  /\ (exists b b' r', from_numpy wit_raw wit_prm = Some b /\ step b (OConcat true [] [wit_part]) [(Some (22 # 3), Some 11)] = Some b' /\
+     raw_step opd_raw p_cols (unscale b) (OConcat true [] [wit_part]) = Some r' /\ raw_equiv r' (unscale b'))
+  /\ c_mean true (col_from_numpy [Some 1; None; Some 3] (Some 2) (Some 1)) = Some None.
+Proof. exact new_witnesses_preserved. Qed.
+Print Assumptions C15_repaired_on_witnesses.
 
 (** DenseScaledMatrix: untransform inverts transform; unscale(inplace) and rescale(inplace) keep the raw values scale*mat+location *)
 Theorem C15_scaled_untransform_transform : forall (c : tcol) (m : list oq) l s, cloc c = Some l -> csc c = Some s -> ~ s == 0 ->
@@ -179,7 +189,8 @@ Proof. exact rescale_raw. Qed.
 Print Assumptions C15_scaled_rescale.
 
 (** non-vacuity: a concrete column meets the parameter checks (also one with a missing value, a constant one and an all-missing one),
-    and a concrete three-step history (select, adjoin of a matrix operand, insert of an array with an index list) meets [run_ok] *)
+    and a concrete history (select, adjoin of a matrix operand, a failing select, delete, insert of an array with an index list,
+    in-place append of a matrix operand, in-place remove, concat_taxa with a second matrix) meets [run_ok] *)
 Example C15_hyps_satisfiable :
   loc_ok [Some 0; Some 2; Some 2; Some 0] (Some 1) = true /\ sc_ok [Some 0; Some 2; Some 2; Some 0] (Some 1) = true
   /\ loc_ok [Some 1; None; Some 3] (Some 2) = true /\ sc_ok [Some 1; None; Some 3] (Some 1) = true
@@ -189,12 +200,16 @@ Example C15_hyps_satisfiable :
                   (OAdjoin (mkopd [[Some 4; Some 8]] 2 (Some [(Some 6, Some 2)]) true None None None None), [(Some (7 # 2), Some (6660913676665389 # 2251799813685248))]);
                   (OSelect [9%Z], []);
                   (ODelete (IList [2%Z; 3%Z]), [(Some 1, Some 1)]);
-                  (OInsert (IList [0%Z; 2%Z]) (mkopd [[Some 0; Some 2]] 2 None true None None None None), [(Some 1, Some 1)])] in
-      forallb (fun x => op_copy (fst x)) ops = true /\ run_ok b0 ops = true /\ length (r_cols (run_spec wit_raw (map fst ops))) = 1%nat).
+                  (OInsert (IList [0%Z; 2%Z]) (mkopd [[Some 0; Some 2]] 2 None true None None None None), [(Some 1, Some 1)]);
+                  (OAppend (mkopd [[Some 4; Some 8]] 2 (Some [(Some 6, Some 2)]) true None None None None), [(Some (8 # 3), Some (1547401413261741 # 562949953421312))]);
+                  (ORemove (IList [4%Z; 5%Z]), [(Some 1, Some 1)]);
+                  (OConcat true [] [mkpart [[Some 1; Some 3]] 2 [(Some 2, Some 1)] None None], [(Some (4 # 3), Some (2489458361662055 # 2251799813685248))])] in
+      run_ok b0 ops = true /\ length (r_cols (run_spec wit_raw (map fst ops))) = 1%nat
+      /\ r_cols (run_spec wit_raw (map fst ops)) = [[Some 0; Some 0; Some 2; Some 2; Some 1; Some 3]]).
 Proof.
   split; [vm_compute; reflexivity|]. split; [vm_compute; reflexivity|]. split; [vm_compute; reflexivity|].
   split; [vm_compute; reflexivity|]. split; [vm_compute; reflexivity|]. split; [vm_compute; reflexivity|].
   split; [vm_compute; reflexivity|].
   eexists. split; [reflexivity|]. split; [vm_compute; reflexivity|]. cbv zeta.
-  split; [reflexivity|]. split; [vm_compute; reflexivity|]. vm_compute; reflexivity.
+  split; [vm_compute; reflexivity|]. split; vm_compute; reflexivity.
 Qed.
